@@ -382,3 +382,115 @@ def replay_visit_sub_mod(model, r):
         found.append('skipped mod declarations at the root, in a sub-module file and in cfg_if!: exit %d, rewritten %r (expected %r)' % (pr.returncode, changed, want))
     shutil.rmtree(d, ignore_errors=True)
     return {'reproduced': bool(found), 'detail': found}
+
+
+# ----------------------------------------------------------------------------------------------------------------------------- K4
+WALKERS = ('visit_cfg_if', 'visit_cfg_match', 'visit_mod_from_ast', 'visit_mod_outside_ast')
+
+
+def part_walkers_pass_errors_on(ctx, eng, pid, replay, n_items=2):
+    """The four walkers that hand `mod` items to visit_sub_mod (cfg_if! bodies, cfg_match! bodies, items of the AST, items found in macro
+    bodies), each run with a list of `n_items` under-constrained items and every callee that can fail (visit_sub_mod and the other walkers)
+    answering Ok | Err symbolically: on every returning path on which some callee answered Err the walker itself returns Err - a module that
+    cannot be resolved or parsed ends the resolution wherever it is declared."""
+    decided, declined = [], ['visit_mod_outside_ast (by-value ThinVec iteration is outside the executor: stated as outside)']
+    for w in WALKERS[:3]:
+        cands = [r['name'] for r in eng.by_method.get(w, []) if r['file'] == 'src/modules.rs']
+        if len(cands) != 1:
+            raise Inconclusive('ModResolver::%s not found' % w)
+        name = cands[0]
+        old = (eng.lenient, eng.inline_only, list(eng.stubs), eng.unsupported_as_outcome)
+        eng.lenient = True
+        eng.unsupported_as_outcome = False
+        eng.stubs = []
+        eng.inline_only = [re.compile('^' + re.escape(name) + r'($|::\{closure)')]
+        results = []
+
+        def s_fallible(e, s_, a, c, results=results):
+            k = len([t for t in s_.trace if t[0] == 'fallible'])
+            r_ = z3.BitVec('callee%d.failed' % k, 64)
+            s_.assume(z3.Or(r_ == 0, r_ == 1))
+            s_.trace.append(('fallible', c.func.rsplit('::', 1)[-1], r_))
+            return Enum('Result', r_, {0: Tup([UNIT]), 1: Tup([Opaque('ModuleResolutionError', 'err%d' % k)])})
+        others = '|'.join(x for x in WALKERS if x != w)
+        eng.stub(r'::(visit_sub_mod|%s)$' % others, s_fallible, 'visit_sub_mod and the other walkers = Ok | Err, symbolic per call, observed')
+        eng.stub(r'(CfgIfVisitor|CfgMatchVisitor)(::<.*>)?::new$', lambda e, s_, a, c: Opaque('MacroModVisitor', 'macro_visitor'), 'CfgIfVisitor / CfgMatchVisitor::new')
+        eng.stub(r'(CfgIfVisitor|CfgMatchVisitor).*::visit_item$|::visit_item$', lambda e, s_, a, c: UNIT, 'the macro-body visitor collects mod items (environment)')
+        eng.stub(r'(CfgIfVisitor|CfgMatchVisitor)(::<.*>)?::mods$', lambda e, s_, a, c: Seq([Opaque('ModItem', 'mod_item%d' % i) for i in range(n_items)]),
+                 'visitor.mods() = %d under-constrained items' % n_items)
+        eng.stub(r'Module::<.*>::new$|Module::new$', lambda e, s_, a, c: Opaque('Module', 'module'), 'Module::new')
+        eng.stub(r'(^|::)(is_cfg_if|is_cfg_match)$', lambda e, s_, a, c: e.fresh_bool(c.func.rsplit('::', 1)[-1]), 'is_cfg_if / is_cfg_match = symbolic per item')
+        eng.stub(r'P<.*>::into_inner$|P::<.*>::into_inner$', lambda e, s_, a, c: deref(e, s_, a[0]), 'P::into_inner = the item')
+        try:
+            fn = eng.get_fn(name)
+            st = State()
+            args = []
+            for pn, ty in fn.params:
+                if pn == 'items' or 'Item>' in ty and 'Cow' not in ty and ('ThinVec' in ty or '[' in ty):
+                    seq = Seq([Opaque('P<Item>', 'ast_item%d' % i) for i in range(n_items)])
+                    args.append(eng.ref_to(st, seq, False, 'items') if ty.strip().startswith('&') else seq)
+                else:
+                    args.append(eng.fresh_of_type(st, ty, 'arg.%s' % pn))
+            outs = ctx.check_outcomes(eng.run(name, args, st), w)
+        except (Unsupported, Inconclusive) as e_:
+            declined.append('%s (%s)' % (w, str(e_)[:120]))
+            continue
+        finally:
+            eng.lenient, eng.inline_only, eng.stubs, eng.unsupported_as_outcome = old
+        n_ret = n_calls = 0
+        mark = len(ctx.obls)
+        for pi, o in enumerate(outs):
+            tag = 'resolver/%s/p%d' % (w, pi)
+            calls = [t for t in o.state.trace if t[0] == 'fallible']
+            mv = [t[2] for t in calls]
+            if o.kind != 'ret':
+                ctx.prop(tag + '/no-panic', o.state.pc, z3.BoolVal(True), mv, replay, twin=False)
+                continue
+            v = deref(eng, o.state, o.value)
+            if not (isinstance(v, Enum) and v.name == 'Result'):
+                raise Inconclusive('%s returned %r' % (w, v))
+            n_ret += 1
+            n_calls = max(n_calls, len(calls))
+            if calls:
+                ctx.prop(tag + '/an-error-of-a-callee-ends-the-walk-with-that-error', o.state.pc, z3.And(z3.Or([r_ == 1 for r_ in mv]), v.discr != 1), mv, replay, twin=False)
+        if n_ret < 2 or n_calls < 1:
+            del ctx.obls[mark:]
+            declined.append('%s (only %d returning paths, %d callee calls)' % (w, n_ret, n_calls))
+            continue
+        decided.append('%s: %d returning paths, up to %d fallible calls' % (w, n_ret, n_calls))
+    if not any(d.startswith('visit_cfg_if') for d in decided) or len(decided) < 2:
+        raise Inconclusive('resolver walkers: decided %r, declined %r' % (decided, declined))
+    ctx.notes.append('resolver/walkers: ' + '; '.join(decided) + ((' - not executable here: ' + '; '.join(declined)) if declined else ''))
+
+
+def replay_walkers(model, r):
+    """a module that cannot be parsed / found, declared in a cfg_if! arm, a cfg_match! arm, a macro body, a nested module file: exit 1, nothing rewritten"""
+    import hashlib
+    bins = ensure_bins()
+    rf = os.path.join(bins, 'rustfmt')
+    d = os.path.join(BUILD, 'scratch', 'res5-%d' % os.getpid())
+    bad = 'pub fn   f( ) { }\n'
+    broken = 'fn f( {\n'
+    found = []
+    roots = {'cfg_if arm': 'mod good;\ncfg_if::cfg_if! {\n    if #[cfg(unix)] {\n        mod bad;\n    } else {\n        mod other;\n    }\n}\n' + bad,
+             'cfg_if else arm': 'mod good;\ncfg_if::cfg_if! {\n    if #[cfg(unix)] {\n        mod other;\n    } else {\n        mod bad;\n    }\n}\n' + bad,
+             'cfg_match arm': 'mod good;\nstd::cfg_match! {\n    unix => {\n        mod bad;\n    }\n    _ => {\n        mod other;\n    }\n}\n' + bad,
+             'plain declaration': 'mod good;\nmod bad;\n' + bad,
+             'inline module': 'mod good;\nmod inl {\n    mod bad;\n}\n' + bad}
+    for what, root in roots.items():
+        for fault in ('unparsable', 'missing'):
+            shutil.rmtree(d, ignore_errors=True)
+            os.makedirs(os.path.join(d, 'inl'))
+            files = {'main.rs': root, 'good.rs': bad, 'other.rs': bad}
+            bp = 'inl/bad.rs' if what == 'inline module' else 'bad.rs'
+            if fault == 'unparsable':
+                files[bp] = broken
+            for n, t in files.items():
+                open(os.path.join(d, n), 'w').write(t)
+            before = {n: hashlib.sha256(open(os.path.join(d, n), 'rb').read()).hexdigest() for n in files}
+            pr = subprocess.run([rf, 'main.rs'], capture_output=True, text=True, env=run_env(), timeout=60, cwd=d)
+            changed = sorted(n for n in files if hashlib.sha256(open(os.path.join(d, n), 'rb').read()).hexdigest() != before[n])
+            if pr.returncode != 1 or changed:
+                found.append('%s module in a %s: exit %d (expected 1), rewritten %r (expected none)' % (fault, what, pr.returncode, changed))
+    shutil.rmtree(d, ignore_errors=True)
+    return {'reproduced': bool(found), 'detail': found[:4]}
